@@ -8,7 +8,9 @@ def _agree(rec):
     if m.startswith("skip"):
         # one-sided: the library validates the contents of the body / auxiliary data / native scripts / redeemers,
         # which the model reads as generic data items (the driver prints `skip impl-rejects*` only when the
-        # implementation answered err where the model accepts)
+        # implementation answered err where the model accepts), or `skip impl-accepts-illformed` when the library
+        # accepts bytes that are not a well-formed CBOR transaction in the generic reading (fixed-arity readers
+        # without a length check, C02's open finding) while the model rejects them
         return True
     return i == m
 
